@@ -2079,6 +2079,11 @@ _compare_prev = compare
 
 
 def compare(interp, op, a, b):   # noqa: F811
+    # an HDF5 dataset compared with an array: numpy compares the dataset's content elementwise
+    if isinstance(a, SObj) and a.clsname == "H5Dataset" and isinstance(b, SArr):
+        a = a.fields["content"]
+    if isinstance(b, SObj) and b.clsname == "H5Dataset" and isinstance(a, SArr):
+        b = b.fields["content"]
     sa = isinstance(a, SOpaque) and a.pytype is str
     sb = isinstance(b, SOpaque) and b.pytype is str
     if (sa or sb) and isinstance(a, (SOpaque, str)) and isinstance(b, (SOpaque, str)) \
